@@ -159,6 +159,11 @@ def run_fermion(case, ctx):
             continue  # pure openfermion arithmetic is not Tangelo's code
         if opname in ("a+=b", "a-=b", "a*=b") and kinds[ia] == "of":
             continue
+        if opname in ("a+=b", "a-=b") and ia == ib:
+            # x += x / x -= x run entirely inside openfermion's SymbolicOperator.__iadd__ (Tangelo only forwards), which iterates the dict it is
+            # modifying and raises RuntimeError when a term cancels: not Tangelo's code (same exclusion as in the qubit-operator histories)
+            ctx.note("inplace_on_itself_skipped")
+            continue
         log.append([opname, ia, ib, s if "s" in opname.replace("==", "") else None])
         wit = lambda: {"pool": [[k, [[list(map(list, t)), c] for t, c in pt.items()]] for k, pt in zip(kinds, pool_terms)],
                        "attrs": attrs, "log": log}
